@@ -591,6 +591,7 @@ def get_finite_state_machine() -> _FiniteStateMachineNode:
     # ....................{ IMPORTS                        }....................
     # Defer function-specific imports.
     from beartype.typing import (
+        AbstractSet,
         AsyncGenerator,
         AsyncIterable,
         AsyncIterator,
@@ -728,7 +729,7 @@ def get_finite_state_machine() -> _FiniteStateMachineNode:
                             '__xor__',
                             'isdisjoint',
                         )): _FiniteStateMachineNode(
-                            hint_factory=set,
+                            hint_factory=AbstractSet,
                             nodes_next={
                                 # "collections.abc.MutableSet" FSM.
                                 frozenset((
